@@ -395,9 +395,14 @@ def Circuit.flatWire (c : Circuit) (r : Reg) : List Item :=
     | some op => flatOp op
     | none => []
 
-/-- `flat c`: register counts and, per register, the sequence of base gates (wrappers expanded in application order,
-    identities dropped) and of multi-register node occurrences -/
+/-- the quantum registers: emitters, then photons -/
+def Circuit.qregs (c : Circuit) : List Reg := c.regsOf .e ++ c.regsOf .p
+
+/-- `flat c`: register counts and, per *quantum* register, the sequence of base gates (wrappers expanded in
+    application order, identities dropped) and of multi-register / measuring node occurrences.  Classical wires are
+    not part of `flat`: `assign_noise` re-`add`s every operation and thereby threads operations that had been
+    `insert_at`ed onto their classical wire as well, which adds ordering constraints but changes no quantum wire. -/
 def Circuit.flat (c : Circuit) : Nat × Nat × Nat × List (List Item) :=
-  (c.ne, c.np, c.nc, c.regs.map c.flatWire)
+  (c.ne, c.np, c.nc, c.qregs.map c.flatWire)
 
 end Graphiq.Wire
